@@ -31,15 +31,16 @@
               of the exhaustive configuration; compared with / validated against the real Operator)
      evs, cvs, called, lastc, haltedAt, haltReq    bounded history variables over which the clauses are stated
 
-   Environment (nondeterministic): the value interactBOC of a halting interface returns, and whether a coupler
-   reports convergence in a given iteration.
+   Environment (nondeterministic): the value a hook of a halting interface returns (a halt request when the hook is
+   interactBOC, meaningless otherwise), and whether a coupler reports convergence in a given iteration.
 
    Interpretation choices
    * restart: the loop starts from the reactor's (cycle, timeNode) at entry; restart points are inside the history
      (sc < nCycles, sn <= steps[sc]).
    * cap = 0 with coupling on means "no iteration" (the cap is reached at once); the run goes on.
-   * `_interactAll` keeps calling the remaining interfaces of the BOC event after one of them has requested a halt
-     (halt is accumulated, not short-circuited) -- the event is still dispatched "exactly ... once each".
+   * every event is dispatched to "exactly the interfaces that are enabled ... once each": a halt request by one
+     interface does not take the BOC hook away from the interfaces after it, and what a hook other than interactBOC
+     returns has no meaning.
    * the last node of a cycle keeps the previous stepLength and uses the power fraction of the last step (1 when the
      cycle has no steps), as _cycleLoop's for/else does; both are observations, not clauses of the statement.
    * deferred / excluded: see OperatorStack.tla.
@@ -134,9 +135,9 @@ Entry(i, ret, cv) ==
      it |-> (IF pc = "CPL" THEN iter ELSE None),
      rc |-> rc, rn |-> rn, ci |-> ci, sl |-> sl, pw |-> pw, ret |-> ret, cv |-> cv]
 
-\* return values: a halting interface answers True/False at BOC (environment) and True at EveryNode/EOC (noise that must be
-\* ignored: only interactAllBOC's result is looked at); a coupled interface reports convergence or not (environment)
-RetChoices(i) == IF cfg.ifs[i].hlt THEN (IF pc = "BOC" THEN BOOLEAN ELSE {pc \in {"EN", "EOC"}}) ELSE {FALSE}
+\* return values: a hook of a halting interface may return True or False (environment); only the answer of interactBOC is a
+\* halt request, what the other hooks return is ignored.  A coupled interface reports convergence or not (environment).
+RetChoices(i) == IF cfg.ifs[i].hlt THEN BOOLEAN ELSE {FALSE}
 CvChoices(i)  == IF pc = "CPL" /\ cfg.ifs[i].cpl THEN BOOLEAN ELSE {TRUE}
 
 Call ==
